@@ -8,7 +8,7 @@ CONSTANTS
   MaxUnits = 2
   MaxFrags = 3
   MaxChunk = 2
-  HdrCells = 2
+  HdrCells = 1
   DevSplitWrite = FALSE
   DevShortRead = FALSE
   DevLoseFinal = FALSE
